@@ -588,21 +588,50 @@ pub fn token_starts(text: &str) -> Vec<u32> {
         .collect()
 }
 
-pub fn history_from_tape(tape: &Tape) -> History {
+/// Shape of a history: number of file slots (FileId 1..5 for the Database search, source
+/// keys for the Project search), how many may be live at once, and the op weights
+/// (query, small edit, remove, re-add same, re-add edited, copy, undo, replace, raw text,
+/// same text again, rename [remove old, remove new, set new := old text], add a further file).
+pub struct GenCfg {
+    pub nslots: usize,
+    pub max_live: usize,
+    pub max_ops: usize,
+    pub weights: [u32; 12],
+}
+
+pub const DB_CFG: GenCfg = GenCfg {
+    nslots: NFILES,
+    max_live: NFILES,
+    max_ops: MAX_OPS,
+    weights: [38, 34, 6, 5, 5, 2, 3, 2, 2, 1, 0, 2],
+};
+
+/// More removals / additions / renames, eight keys of which at most six are live, so that
+/// file ids are allocated, freed and (if the registry recycles them) reused all the time.
+pub const PROJECT_CFG: GenCfg = GenCfg {
+    nslots: 8,
+    max_live: 6,
+    max_ops: 30,
+    weights: [26, 20, 14, 6, 5, 2, 2, 2, 1, 1, 4, 12],
+};
+
+pub fn history_from_tape_cfg(tape: &Tape, cfg: &GenCfg) -> History {
+    let nslots = cfg.nslots;
     let mut r = Reader::new(tape);
     let mut ops: Vec<Op> = Vec::new();
     let mut how: Vec<String> = Vec::new();
-    let mut slot: Vec<Option<Slot>> = vec![None; NFILES];
-    let mut text: Vec<Option<String>> = vec![None; NFILES];
-    let mut prev_text: Vec<Option<(String, Option<Slot>)>> = vec![None; NFILES];
-    let mut removed: Vec<Option<(String, Option<Slot>)>> = vec![None; NFILES];
+    let mut slot: Vec<Option<Slot>> = vec![None; nslots];
+    let mut text: Vec<Option<String>> = vec![None; nslots];
+    let mut prev_text: Vec<Option<(String, Option<Slot>)>> = vec![None; nslots];
+    let mut removed: Vec<Option<(String, Option<Slot>)>> = vec![None; nslots];
 
     // lengths 1..40, biased to the longer half (low tape values -> short, for shrinking)
     let n_ops = match r.weighted(&[2, 3, 5]) {
         0 => 1 + r.pick(8),
         1 => 9 + r.pick(12),
         _ => 21 + r.pick(MAX_OPS - 20),
-    };
+    }
+    .min(cfg.max_ops);
     // an initial project of 1..4 files, added in tape-chosen order
     let initial = (1 + r.pick(4)).min(n_ops);
 
@@ -631,11 +660,11 @@ pub fn history_from_tape(tape: &Tape) -> History {
         if r.exhausted() && !ops.is_empty() {
             break;
         }
-        let present: Vec<usize> = (0..NFILES).filter(|f| text[*f].is_some()).collect();
+        let present: Vec<usize> = (0..nslots).filter(|f| text[*f].is_some()).collect();
         if ops.len() < initial || present.is_empty() {
-            let absent: Vec<usize> = (0..NFILES).filter(|f| text[*f].is_none()).collect();
+            let absent: Vec<usize> = (0..nslots).filter(|f| text[*f].is_none()).collect();
             let f = if absent.is_empty() {
-                r.pick(NFILES)
+                r.pick(nslots)
             } else {
                 absent[r.pick(absent.len())]
             };
@@ -649,7 +678,8 @@ pub fn history_from_tape(tape: &Tape) -> History {
         }
         // weights: query, small edit, remove, re-add same, re-add different, copy, undo,
         //          new model, raw text, same text again, add a further file
-        let choice = r.weighted(&[38, 34, 6, 5, 5, 2, 3, 2, 2, 1, 2]);
+        let choice = r.weighted(&cfg.weights);
+        let full = present.len() >= cfg.max_live;
         match choice {
             0 => {
                 // (the tape over-represents 0 and u32::MAX: first and last entries are common)
@@ -664,7 +694,7 @@ pub fn history_from_tape(tape: &Tape) -> History {
                 let f = if r.chance(9, 10) {
                     present[r.pick(present.len())]
                 } else {
-                    r.pick(NFILES)
+                    r.pick(nslots)
                 };
                 let arg = match (&text[f], kind) {
                     (_, QueryKind::TypeOfId) => r.pick(40) as u32,
@@ -729,7 +759,7 @@ pub fn history_from_tape(tape: &Tape) -> History {
                 let f = if r.chance(9, 10) {
                     present[r.pick(present.len())]
                 } else {
-                    r.pick(NFILES)
+                    r.pick(nslots)
                 };
                 if let Some(t) = text[f].take() {
                     removed[f] = Some((t, slot[f].take()));
@@ -738,7 +768,10 @@ pub fn history_from_tape(tape: &Tape) -> History {
                 how.push("remove".into());
             }
             3 | 4 => {
-                let cands: Vec<usize> = (0..NFILES)
+                if full {
+                    continue;
+                }
+                let cands: Vec<usize> = (0..nslots)
                     .filter(|f| text[*f].is_none() && removed[*f].is_some())
                     .collect();
                 if cands.is_empty() {
@@ -776,8 +809,8 @@ pub fn history_from_tape(tape: &Tape) -> History {
             5 => {
                 // copy another file's content (every declaration clashes)
                 let src = present[r.pick(present.len())];
-                let f = r.pick(NFILES);
-                if f == src {
+                let f = r.pick(nslots);
+                if f == src || (full && text[f].is_none()) {
                     continue;
                 }
                 let t = text[src].clone().unwrap();
@@ -813,7 +846,10 @@ pub fn history_from_tape(tape: &Tape) -> History {
                 );
             }
             8 => {
-                let f = r.pick(NFILES);
+                let f = r.pick(nslots);
+                if full && text[f].is_none() {
+                    continue;
+                }
                 let t = raw_text(&mut r);
                 push_set(
                     &mut ops, &mut how, &mut slot, &mut text, &mut prev_text, f, Slot::Raw, t,
@@ -826,9 +862,32 @@ pub fn history_from_tape(tape: &Tape) -> History {
                 ops.push(Op::Set { f: f as u8, text: t });
                 how.push("same_text".into());
             }
+            10 => {
+                // what the language server does on a file rename: remove the old key,
+                // remove the new key, set the new key to the old content
+                let from = present[r.pick(present.len())];
+                let to = r.pick(nslots);
+                if to == from {
+                    continue;
+                }
+                let t = text[from].take().unwrap();
+                let s = slot[from].take();
+                removed[from] = Some((t.clone(), s.clone()));
+                ops.push(Op::Remove { f: from as u8 });
+                how.push("rename_remove_old".into());
+                if let Some(old) = text[to].take() {
+                    removed[to] = Some((old, slot[to].take()));
+                }
+                ops.push(Op::Remove { f: to as u8 });
+                how.push("rename_remove_new".into());
+                push_set(
+                    &mut ops, &mut how, &mut slot, &mut text, &mut prev_text, to,
+                    s.unwrap_or(Slot::Raw), t, "rename_set_new",
+                );
+            }
             _ => {
-                let absent: Vec<usize> = (0..NFILES).filter(|f| text[*f].is_none()).collect();
-                if absent.is_empty() {
+                let absent: Vec<usize> = (0..nslots).filter(|f| text[*f].is_none()).collect();
+                if absent.is_empty() || full {
                     continue;
                 }
                 let f = absent[r.pick(absent.len())];
@@ -841,6 +900,8 @@ pub fn history_from_tape(tape: &Tape) -> History {
             }
         }
     }
+    ops.truncate(MAX_OPS);
+    how.truncate(MAX_OPS);
     History {
         ops,
         how,
